@@ -21,7 +21,7 @@ from . import c07
 def run(ctx) -> None:
     ctx.rule("a.length-guard", "every store of a Table's column tuple is dominated by a guard that raises unless EVERY "
                                "incoming column has the table's length (construction: loop over all columns; replacement / "
-                               ">> dict: len(value) != self._length, conjoined at most with `self._underlying`)", 4)
+                               ">> dict: len(value) != self._length, conjoined at most with `self._underlying`)", 3)
     ctx.rule("a.length-field", "_length is stored only by Table.__init__ (from the first column) and __len__ returns it", 2)
     ctx.rule("b.write-keeps-length", "Vector.__setitem__ materialises list(<old storage>) and only ever assigns single positions "
                                      "of it; _promote rebuilds from ALL elements (no filter): a column never changes length", 2)
@@ -109,62 +109,88 @@ def _guards(ctx) -> None:
         # `initial` not rebound between guard and copy except by the copying statement
     ctx.ob("a.length-guard", f, "construction", not problems, "all incoming columns are compared with the table length before the store",
            guard_loop or f.node, message="; ".join(problems))
-    # ---- replacement callers
-    n_calls = 0
-    for g in prog.functions.values():
-        if isinstance(g.node, ast.Lambda):
+    # ---- replacement callers and >> {name: values}: decided on the symx event log (helpers evaluated in line, guard clauses as
+    #      path conditions), so it does not matter where the guard is written as long as it holds at the store
+    from ..symx import Interp as SInterp
+    from ..symx import elements, show, show_conds, subterms
+    n_funcs = 0
+    for g in list(prog.functions.values()):
+        if isinstance(g.node, ast.Lambda) or g.cls != "Table" or g.parent is not None:
             continue
-        gcfg = cfg_of(g)
-        for c in prog.calls_in(g):
-            if isinstance(c.func, ast.Attribute) and c.func.attr == "_replace_column" and len(c.args) == 2:
-                n_calls += 1
-                val = short(c.args[1])
-                node = gcfg.enclosing_stmt_node(prog, c)
-                ok = False
-                why = f"no raising guard `len({val}) != self._length` dominates the replacement"
-                for t in gcfg.nodes:
-                    if t.kind == "test" and gcfg.dominates(t, node):
-                        tsucc = [s for s, lab in t.succ if lab == "T"]
-                        raises_on_true = all(isinstance(s.ast, ast.Raise) for s in tsucc) and bool(tsucc)
-                        if raises_on_true and f"len({val})" in short(t.ast):
-                            bad = _guard_test_ok(t.ast, val)
-                            if bad is None:
-                                ok = True
-                            else:
-                                why = bad
-                ctx.ob("a.length-guard", g, f"replace:{n_calls}", ok, f"replacement of a column by `{val}` is length-checked", c,
-                       message=f"{g.qualname}: {why}")
-    if n_calls < 2:
-        raise AnalysisError(f"expected at least 2 _replace_column call sites, found {n_calls}")
+        if not any(isinstance(n, ast.Attribute) and n.attr == "_replace_column" for n in ast.walk(g.node)) or g.name == "_replace_column":
+            continue
+        it = SInterp(prog, g)
+        S = ("param", g.params[0])
+        sites = [e for e in it.events if e.kind == "call" and e.term[1] == ("attr", S, "_replace_column") and len(e.term[2]) == 2]
+        if not sites:
+            continue
+        n_funcs += 1
+        bad = []
+        for e in sites:
+            why = _length_guard_problem(it, S, e.conds, e.term[2][1])
+            if why:
+                bad.append((why, e.node))
+        ctx.ob("a.length-guard", g, "replace", not bad, f"{len(sites)} replacement(s) of a column are length-checked", bad[0][1] if bad else g.node,
+               message=f"{g.qualname}: " + "; ".join(w for w, _ in bad))
+    if n_funcs < 1:
+        raise AnalysisError("no caller of Table._replace_column found")
     # ---- >> dict
     f = prog.func("table.Table.__rshift__")
-    cfg = cfg_of(f)
-    probs = []
+    it = SInterp(prog, f)
+    S = ("param", f.params[0])
     new_cols = None
-    for st in walk_stmts(f.body):
-        if isinstance(st, ast.Return) and isinstance(st.value, ast.Call) and short(st.value.func) == "Table" and st.value.args \
-                and isinstance(st.value.args[0], ast.BinOp) and short(st.value.args[0].left) == "tuple(self._underlying)":
-            r = st.value.args[0].right
-            if isinstance(r, ast.Call) and short(r.func) == "tuple" and r.args and isinstance(r.args[0], ast.Name):
-                new_cols = r.args[0].id
-    apps = [n for n in cfg.stmt_nodes() if isinstance(n.ast, ast.Expr) and isinstance(n.ast.value, ast.Call)
-            and isinstance(n.ast.value.func, ast.Attribute) and n.ast.value.func.attr == "append"
-            and short(n.ast.value.func.value) == new_cols]
-    if len(apps) != 1:
+    ret_node = f.node
+    for e in it.events:
+        if e.kind == "return" and e.depth == 0 and e.term[0] == "call" and e.term[1] == ("name", "Table") and e.term[2] \
+                and e.term[2][0][0] == "bin" and e.term[2][0][1] == "Add":
+            l, r = e.term[2][0][2], e.term[2][0][3]
+            if l in (("call", ("name", "tuple"), (("attr", S, "_underlying"),), ()), ("attr", S, "_underlying")) \
+                    and r[0] == "call" and r[1] == ("name", "tuple") and len(r[2]) == 1 and r[2][0][0] == "obj":
+                new_cols, ret_node = r[2][0], e.node
+    if new_cols is None:
+        raise AnalysisError("Table.__rshift__: `return Table(tuple(self._underlying) + tuple(<new named columns>))` not found")
+    els = elements(it, new_cols)
+    if not els:
         raise AnalysisError("Table.__rshift__: append of a new named column not found")
-    val = short(apps[0].ast.value.args[0])
-    ok = False
-    why = f"no raising guard `len({val}) != self._length` dominates the append of a new column"
-    for t in cfg.nodes:
-        if t.kind == "test" and cfg.dominates(t, apps[0]) and f"len({val})" in short(t.ast):
-            tsucc = [s for s, lab in t.succ if lab == "T"]
-            if tsucc and all(isinstance(s.ast, ast.Raise) for s in tsucc):
-                bad = _guard_test_ok(t.ast, val)
-                if bad is None:
-                    ok = True
-                else:
-                    why = bad
-    ctx.ob("a.length-guard", f, ">>dict", ok, "columns added by >> {name: values} are length-checked", apps[0].ast, message=why)
+    bad = []
+    for e in els:
+        v = e.value if e.kind == "elem" else (e.term[2][0] if e.kind == "call" and e.term[2] else None)
+        why = _length_guard_problem(it, S, e.conds, v) if v is not None else "a new column is stored by index"
+        if why:
+            bad.append((why.replace("the replacement", "the append of a new column"), e.node))
+    ctx.ob("a.length-guard", f, ">>dict", not bad, "columns added by >> {name: values} are length-checked", bad[0][1] if bad else ret_node,
+           message="; ".join(w for w, _ in bad))
+
+
+def _length_guard_problem(it, S, conds, val) -> Optional[str]:
+    """None if the path condition guarantees len(val) == self._length (or that the table has no columns)."""
+    from ..symx import show
+    ln = ("call", ("name", "len"), (val,), ())
+    tl = ("attr", S, "_length")
+    has_cols = ("attr", S, "_underlying")
+
+    def is_ne(t):
+        return t[0] == "cmp" and t[1] == "NotEq" and {t[2], t[3]} == {ln, tl}
+
+    def is_eq(t):
+        return t[0] == "cmp" and t[1] == "Eq" and {t[2], t[3]} == {ln, tl}
+    why = f"no raising guard `len({show(val, it)[:40]}) != self._length` dominates the replacement"
+    for t, pol in conds:
+        if is_eq(t) and pol:
+            return None
+        if t[0] == "bool" and t[1] == "and" and not pol and any(is_ne(x) for x in t[2]):
+            rest = [x for x in t[2] if not is_ne(x)]
+            bad = [x for x in rest if x != has_cols]
+            if not bad:
+                return None
+            why = (f"the length check is skipped unless `{show(bad[0], it)[:50]}`: a wrong-length column would be stored when that is "
+                   f"false (e.g. a table with columns but no rows)")
+        if t[0] == "bool" and t[1] == "or" and pol and any(is_eq(x) for x in t[2]):
+            rest = [x for x in t[2] if not is_eq(x)]
+            bad = [x for x in rest if x != ("un", "Not", has_cols)]
+            if not bad:
+                return None
+    return why
 
 
 def _length_field(ctx) -> None:
@@ -242,72 +268,84 @@ def _rows(ctx) -> None:
 
 
 def _row_view(ctx) -> None:
+    from ..symx import Interp as SInterp
+    from ..symx import const, elements, show, subterms
     prog = ctx.prog
     f = prog.func("table.Row.__init__")
-    tbl = f.params[1]
-    snap = [s for s in f.body if isinstance(s, ast.Assign) and short(s.targets[0]) == "self._raw_cols"]
-    all_stores = [s for s in walk_stmts(f.body) if isinstance(s, (ast.Assign, ast.AugAssign, ast.AnnAssign))
-                  and any(isinstance(n, ast.Attribute) and n.attr == "_raw_cols" and isinstance(n.ctx, ast.Store)
-                          for t in (s.targets if isinstance(s, ast.Assign) else [s.target]) for n in ast.walk(t))]
-    ok = len(snap) == 1 and len(all_stores) == 1 and cshort(snap[0].value) == f"[_0._underlying for _0 in {tbl}._underlying]"
-    ctx.ob("d.row-view", f, "snapshot", ok, "snapshot of all column tuples, in order, straight from the table", snap[0] if snap else f.node,
-           message=f"Row takes its cells from `{short(snap[0].value, 70) if snap else '?'}`, not from the table's current column tuples "
-                   f"[col._underlying for col in {tbl}._underlying]: a row view can disagree with the columns (stale or filtered snapshot)")
-    idx = [s for s in f.body if isinstance(s, ast.Assign) and short(s.targets[0]) == "self._index"]
-    ctx.ob("d.row-view", f, "index", len(idx) == 1 and short(idx[0].value) == f.params[2], "row index stored as given", idx[0] if idx else f.node,
-           message="Row does not store the requested row index")
+    it = SInterp(prog, f)
+    S, T = ("param", f.params[0]), ("param", f.params[1])
+    tcols = ("attr", T, "_underlying")
+    stores = [e for e in it.events if e.kind == "store" and e.term[0] == "attr" and e.term[2] == "_raw_cols"]
+    ok = False
+    got = "?"
+    if len(stores) == 1 and stores[0].term[1] == S and not stores[0].conds:
+        v = stores[0].value
+        got = show(v, it)[:80]
+        if v[0] == "obj" and it.objs[v[1]].kind in ("listcomp", "list"):
+            els = elements(it, v)
+            if len(els) == 1 and not it.objs[v[1]].init:
+                e = els[0]
+                lps = [L for L in e.loops if L not in it.objs[v[1]].loops]
+                ev = e.value if e.kind == "elem" else (e.term[2][0] if e.term[2] else None)
+                ok = len(lps) == 1 and it.loops[lps[0]].iter == tcols and not e.conds[len(it.objs[v[1]].conds):] \
+                    and ev == ("attr", ("elem", tcols, lps[0]), "_underlying")
+    ctx.ob("d.row-view", f, "snapshot", ok, "snapshot of all column tuples, in order, straight from the table", stores[0].node if stores else f.node,
+           message=f"Row takes its cells from `{got}` ({len(stores)} store(s) to _raw_cols), not once from the table's current column tuples "
+                   f"[col._underlying for col in {f.params[1]}._underlying]: a row view can disagree with the columns (stale or filtered snapshot)")
+    idx = [e for e in it.events if e.kind == "store" and e.term == ("attr", S, "_index")]
+    ctx.ob("d.row-view", f, "index", len(idx) == 1 and idx[0].value == ("param", f.params[2]) and not idx[0].conds, "row index stored as given",
+           idx[0].node if idx else f.node, message="Row does not store the requested row index")
     # accessors
-    acc = {
-        "table.Row.__getitem__": "self._raw_cols[key][self._index]",
-        "table.Row.__iter__": None,
-        "table.Row._underlying": "tuple((_0[self._index] for _0 in self._raw_cols))",
-        "table.Row.__getattr__": "self._raw_cols[$X][self._index]",
-    }
-    for q, want in acc.items():
+    for q, kind in (("table.Row.__getitem__", "item"), ("table.Row.__iter__", "iter"), ("table.Row._underlying", "all"),
+                    ("table.Row.__getattr__", "attr")):
         g = prog.func(q)
-        if want is None:
-            loops = [s for s in walk_stmts(g.body) if isinstance(s, ast.For)]
-            ok = len(loops) == 1 and short(loops[0].iter) == "self._raw_cols" and any(
-                isinstance(n, ast.Yield) and isinstance(n.value, ast.Subscript) and short(n.value.value) == loops[0].target.id
-                for n in walk_no_nested(loops[0]))
-            d = Defs(g)
-            ys = [n for n in walk_no_nested(g.node) if isinstance(n, ast.Yield)]
-            if ok and ys:
-                ix = ys[0].value.slice
-                ixv = d.resolve(ix)
-                ok = short(ixv) == "self._index"
+        gi = SInterp(prog, g)
+        me = ("param", g.params[0])
+        RC, IX = ("attr", me, "_raw_cols"), ("attr", me, "_index")
+        if kind == "iter":
+            ys = [e for e in gi.events if e.kind == "yield"]
+            ok = len(ys) == 1 and len(ys[0].loops) == 1 and gi.loops[ys[0].loops[0]].iter == RC and not ys[0].conds \
+                and ys[0].term == ("sub", ("elem", RC, ys[0].loops[0]), IX)
             ctx.ob("d.row-view", g, "accessor", ok, "iteration yields col[self._index] over all snapshot columns", g.node,
                    message="Row.__iter__ does not yield the cell of every column at the row index")
             continue
-        rets = [cshort(s.value) for s in walk_stmts(g.body) if isinstance(s, ast.Return) and s.value is not None]
-        if "$X" in want:
-            rets = [_mask_index_name(s.value) for s in walk_stmts(g.body) if isinstance(s, ast.Return) and s.value is not None]
-        ctx.ob("d.row-view", g, "accessor", want in rets, f"returns {want}", g.node,
-               message=f"{q} returns {rets}; expected the snapshot cell `{want}`")
-    # Table.__iter__ / __getitem__(int)
+        rets = [e.term for e in gi.events if e.kind == "return" and e.depth == 0]
+        if kind == "item":
+            want_ok = any(t == ("sub", ("sub", RC, ("param", g.params[1])), IX) for t in rets)
+            want = "self._raw_cols[key][self._index]"
+        elif kind == "attr":
+            want_ok = any(t[0] == "sub" and t[2] == IX and t[1][0] == "sub" and t[1][1] == RC for t in rets)
+            want = "self._raw_cols[<column position>][self._index]"
+        else:
+            want_ok = False
+            want = "tuple(col[self._index] for col in self._raw_cols)"
+            for t in rets:
+                if t[0] == "call" and t[1] == ("name", "tuple") and len(t[2]) == 1 and t[2][0][0] == "obj":
+                    els = elements(gi, t[2][0])
+                    if len(els) == 1:
+                        e = els[0]
+                        lps = [L for L in e.loops if L not in gi.objs[t[2][0][1]].loops]
+                        if len(lps) == 1 and gi.loops[lps[0]].iter == RC and e.value == ("sub", ("elem", RC, lps[0]), IX) \
+                                and not e.conds[len(gi.objs[t[2][0][1]].conds):]:
+                            want_ok = True
+        ctx.ob("d.row-view", g, "accessor", want_ok, f"returns {want}", g.node,
+               message=f"{q} returns {[show(t, gi)[:60] for t in rets]}; expected the snapshot cell `{want}`")
+    # Table.__iter__
     g = prog.func("table.Table.__iter__")
-    d = Defs(g)
-    loops = [s for s in walk_stmts(g.body) if isinstance(s, ast.For)]
+    gi = SInterp(prog, g)
+    me = ("param", g.params[0])
+    ys = [e for e in gi.events if e.kind == "yield"]
     ok = False
-    if len(loops) == 1:
-        r = loops[0].iter
-        ok = isinstance(r, ast.Call) and short(r.func) == "range" and len(r.args) == 1 and short(d.resolve(r.args[0])) == "len(self)" \
-            and any(isinstance(n, ast.Yield) and short(n.value).endswith(f".set_index({loops[0].target.id})") for n in walk_no_nested(loops[0]))
-        ys = [n for n in walk_no_nested(loops[0]) if isinstance(n, ast.Yield) and isinstance(n.value, ast.Call)
-              and isinstance(n.value.func, ast.Attribute) and isinstance(n.value.func.value, ast.Name)]
-        rvn = ys[0].value.func.value.id if ys else "?"
-        rv = [v for v, _, _ in d.assigns.get(rvn, []) if v is not None]
-        ok = ok and bool(rv) and all(short(v) == "Row(self, 0)" for v in rv)
+    if len(ys) == 1 and len(ys[0].loops) == 1 and not ys[0].conds[len(gi.loops[ys[0].loops[0]].conds):]:
+        lp = gi.loops[ys[0].loops[0]]
+        t = ys[0].term
+        rng_ok = lp.range is not None and lp.range[0] == const(0) and lp.range[2] == const(1) \
+            and lp.range[1] == ("call", ("name", "len"), (me,), ())
+        if rng_ok and t[0] == "call" and t[1][0] == "attr" and t[1][2] == "set_index" and t[2] == (("idx", lp.id),):
+            row = t[1][1]
+            ok = row[0] == "call" and row[1] == ("name", "Row") and row[2][:1] == (me,)
     ctx.ob("d.row-view", g, "iteration", ok, "iteration yields rows 0..len(self)-1 of this table", g.node,
            message="Table.__iter__ does not yield set_index(i) for i in range(len(self)) on a Row of this table")
-
-
-def _mask_index_name(e: ast.AST) -> str:
-    """self._raw_cols[<any local name>][self._index] -> self._raw_cols[$X][self._index]"""
-    if isinstance(e, ast.Subscript) and isinstance(e.value, ast.Subscript) and short(e.value.value) == "self._raw_cols" \
-            and isinstance(e.value.slice, ast.Name):
-        return f"self._raw_cols[$X][{short(e.slice)}]"
-    return short(e)
 
 
 def _structural(ctx) -> None:
